@@ -121,7 +121,7 @@ def run(tier, seed):
     if tier == 'quick':
         sjobs = [make_job('bytes-1', sym_parts(1)), make_job('bytes-2', sym_parts(2)), make_job('punct-3', sym_parts(3, alphabet=PUNCT)),
                  make_job('ascii-mb2', mixed_parts('a2')), make_job('mb2-ascii', mixed_parts('2a')), make_job('a-mb3-a', mixed_parts('a3a', True)), make_job('aa-mb2-a', mixed_parts('aa2a', True))]
-        nprefix = 160
+        nprefix = 110
     else:
         sjobs = [make_job('bytes-1', sym_parts(1)), make_job('bytes-2', sym_parts(2)), make_job('bytes-3', sym_parts(3)), make_job('punct-4', sym_parts(4, alphabet=PUNCT))]
         nprefix = 3000
@@ -144,6 +144,8 @@ def run(tier, seed):
     c.bounds = {'symbolic_inputs': 'all valid-UTF-8 inputs of <= 2 bytes, all strings of 3 bytes over a 31-character punctuation alphabet, an ASCII byte before / after any 2-byte character, 1-2 bytes of an 11-character alphabet around any 2- / 3-byte character (quick); <= 3 bytes UTF-8 and 4 bytes punctuation (thorough)',
                 'truncations': '%d (script, offset) pairs sampled from the %d repository test scripts (VERIF_SEED), each followed by one symbolic ASCII byte; 22 unterminated constructs' % (nprefix, len(tests))}
     c.outside = ['inputs longer than the stated sizes that are not such truncations', 'files that are not valid UTF-8 (only the read-error arm exists; the error value is opaque)', 'token-level mutations (not built)']
-    c.run_jobs('symbolic-bytes', sjobs, par_jobs=len(sjobs), par_paths=max(2, 16 // len(sjobs)), timeout=3000)
+    big = [j for j in sjobs if j['name'] in ('punct-3', 'punct-4', 'bytes-3')]; small = [j for j in sjobs if j not in big]
+    for j in big: c.run_jobs('symbolic-bytes', [j], par_jobs=1, par_paths=16, timeout=3000)
+    c.run_jobs('symbolic-bytes', small, par_jobs=len(small), par_paths=max(2, 16 // max(1, len(small))), timeout=3000)
     c.run_jobs('truncations', pjobs, par_jobs=12, par_paths=1)
     return c.finish()
